@@ -162,12 +162,23 @@ package labels
 // Voxel-count deltas of a block write (C08: the per-body index is fed from these). Decided for the
 // fast path of a solid block (one label): the whole block's voxel count is ADDED for the new block and
 // SUBTRACTED for the previous one, label 0 is ignored, no other label's delta changes. The general
-// path (sub-block loops) is not under contract.
+// path (sub-block loops): the cursor into SBIndices advances by exactly NumSBLabels[subBlockNum] for every
+// sub-block, whatever the labels are (a background-only sub-block still consumes its index entry) -
+// otherwise every later sub-block is counted under the wrong labels (C09: per-label voxel counts).
 //@ func Block.calcNumLabels
-//@   prop C08
+//@   prop C08 C09
 //@   safety_off
 //@   requires delta != nil
 //@   modifies delta[*]
+//@   ghost expIdx uint32 = 0
+//@   ghostset after "numSBLabels := b.NumSBLabels[subBlockNum]": expIdx = indexPos + uint32(numSBLabels)
+//@   invariant loop 1: indexPos == expIdx
+//@   invariant loop 2: indexPos == expIdx
+//@   invariant loop 3: indexPos == expIdx
+//@   invariant loop 4: i <= numSBLabels && indexPos + uint32(numSBLabels - i) == expIdx
+//@   invariant loop 5: indexPos == expIdx
+//@   invariant loop 6: indexPos == expIdx
+//@   invariant loop 7: indexPos == expIdx
 //@   ensures len(b.Labels) == 1 && b.Labels[0] != 0 && add ==> delta[b.Labels[0]] == old(delta[b.Labels[0]]) + int32(int64(b.Size[0]) * int64(b.Size[1]) * int64(b.Size[2]))
 //@   ensures len(b.Labels) == 1 && b.Labels[0] != 0 && !add ==> delta[b.Labels[0]] == old(delta[b.Labels[0]]) - int32(int64(b.Size[0]) * int64(b.Size[1]) * int64(b.Size[2]))
 //@   ensures len(b.Labels) == 1 ==> (forall l uint64 :: l != b.Labels[0] || l == 0 ==> has(delta, l) == old(has(delta, l)) && delta[l] == old(delta[l]))
@@ -229,3 +240,13 @@ package labels
 //@   invariant loop 7: 0 <= y && y <= 8 && lblpos == sz*8*b.Size[0]*b.Size[1] + sy*8*b.Size[0] + sx*8 + z*b.Size[0]*b.Size[1] + y*b.Size[0]
 //@   invariant loop 8: 0 <= x && x <= 8 && lblpos == sz*8*b.Size[0]*b.Size[1] + sy*8*b.Size[0] + sx*8 + z*b.Size[0]*b.Size[1] + y*b.Size[0] + x
 //@   assert at "lblpos++": lblpos == (sz*8 + z)*b.Size[0]*b.Size[1] + (sy*8 + y)*b.Size[0] + sx*8 + x
+
+// WriteBinaryBlocks (C09, binary-block sparse output): a block is announced as foreground-only
+// (hasBackground == false) only if every label of the block is one of the targeted labels.
+//@ func WriteBinaryBlocks
+//@   prop C09
+//@   safety_off
+//@   calls_havoc
+//@   modifies *
+//@   invariant loop 2: !hasBackground ==> (forall j int :: 0 <= j && j <= rangeindex ==> has(lbls, pb.Labels[j]))
+//@   assert at "if inBlock {": !hasBackground ==> (forall j int :: 0 <= j && j < len(pb.Labels) ==> has(lbls, pb.Labels[j]))
